@@ -350,7 +350,10 @@ def check(run, driver):
     for _ in range(12 if thorough else 5):
         N_, L_ = int(rng.integers(2, 5)), int(rng.integers(2, 4))
         gg = np.full((N_, N_, L_), "", dtype="<U3"); gg[0, 1, 1] = "-->"
-        for shp in [(N_, N_, 1), (1, 1, 1), (N_, 1, L_), (1, N_, L_), (N_, N_), (N_, N_, L_ + 1), (N_ + 1, N_, L_), (1,), (L_,), (N_, L_), (1, 1, L_)]:
+        for shp in [(N_, N_, 1), (1, 1, 1), (N_, 1, L_), (1, N_, L_), (N_, N_), (N_, N_, L_ + 1), (N_ + 1, N_, L_), (1,), (L_,), (N_, L_), (1, 1, L_),
+                    (N_, L_, N_), (L_, N_, N_), (N_ * N_ * L_,), (N_ * N_, L_), (N_, N_ * L_), (N_ * L_, N_)]:      # (the last six: the same NUMBER of entries in another layout)
+            if shp == (N_, N_, L_):
+                continue
             for which in ("val_matrix", "p_matrix"):
                 res = {"graph": gg, "val_matrix": np.zeros((N_, N_, L_)), "p_matrix": np.ones((N_, N_, L_))}
                 res[which] = np.full(shp, 0.25)
